@@ -1,7 +1,7 @@
 (* C06 correspondence: encode and decode cases recorded by tools/harness/C06.py *)
 From Coq Require Import List NArith Arith Bool.
 Import ListNotations.
-From V Require Import Model.Bytes Model.Wire Harness.Cmp.
+From V Require Import Model.Bytes Model.SockIO Model.Wire Model.WireIO Harness.Cmp.
 Local Open Scope N_scope.
 
 Definition werr_eqb (a b : werr) : bool :=
@@ -27,7 +27,8 @@ Definition check_encode (c : ecase) : bool :=
 Record dobs := { o_type : N; o_flags : N; o_seq : N; o_ser : N; o_data : N * N;
                  o_anns : list (bytes * (N * N)); o_corr : bytes }.
 Record dcase := { d_cfg : wcfg; d_accepted : option (list N); d_unz : option bytes; d_stream : bytes;
-                  d_out : result dobs; d_consumed : N }.
+                  d_out : result dobs; d_consumed : N;
+                  d_waitall : bool; d_script : list sock_ev }.   (* what the fragmenting socket did, call by call *)
 Definition obs_of (m : rmsg) : dobs :=
   {| o_type := r_type m; o_flags := r_flags m; o_seq := r_seq m; o_ser := r_ser m; o_data := cksum (r_data m);
      o_anns := map (fun kv => (fst kv, cksum (snd kv))) (r_anns m); o_corr := r_corr m |}.
@@ -47,6 +48,16 @@ Definition check_decode (c : dcase) : bool :=
   | _, _ => false
   end.
 
+(* the same read through the socket model (Model/WireIO.v) with the recorded script: None = the socket
+   layer raised (the real recv_stub then raised ConnectionClosedError) *)
+Definition check_decode_io (c : dcase) : bool :=
+  match recv_stub_io (d_cfg c) (d_accepted c) (d_unz c) (d_waitall c) (d_script c) (d_stream c), d_out c with
+  | Some (Ok m, n), Ok b => dobs_eqb (obs_of m) b && (n =? d_consumed c)
+  | Some (Err a, n), Err b => werr_eqb a b && (n =? d_consumed c)
+  | None, Err EClosed => true
+  | _, _ => false
+  end.
+
 Inductive case := EC (c : ecase) | DC (c : dcase).
 Definition check_case (c : case) : bool :=
-  match c with EC e => check_encode e | DC d => check_decode d end.
+  match c with EC e => check_encode e | DC d => check_decode d && check_decode_io d end.
